@@ -83,6 +83,15 @@ func (a *statAcc) addRun(p *sdl.Program, o *model.Obs, nontrivial bool) {
 	for _, f := range o.Fired {
 		a.FaultFired[faultKind(f)]++
 	}
+	if len(o.Events) == 0 && len(o.Fired) == 0 {
+		// parallel mode (racesim) keeps no event log: an armed permanent fault fired iff its
+		// callback was reached - scanners whenever the start failed, closers whenever Close ran
+		for _, f := range o.Faults {
+			if k := faultKind(f); (k == "scan" && o.RunErr) || (k == "close" && o.CloseReturned) {
+				a.FaultFired[k]++
+			}
+		}
+	}
 	a.pathSigs[o.PathSig] = true
 	if nontrivial {
 		a.NonTrivial++
